@@ -6,8 +6,10 @@
 package main
 
 import (
+	"encoding/json"
 	"fmt"
 	"math"
+	"os"
 	"runtime"
 	"sync"
 	"sync/atomic"
@@ -103,6 +105,24 @@ func checkOne(x, y uint64) (t int64) {
 
 func main() {
 	run = ev.New("C17")
+	if rp := os.Getenv("VERIF_REPLAY"); rp != "" {
+		b, err := os.ReadFile(rp)
+		if err != nil {
+			ev.HarnessError("%v", err)
+		}
+		var f struct {
+			Case vio `json:"case"`
+		}
+		if err := json.Unmarshal(b, &f); err != nil {
+			ev.HarnessError("%v", err)
+		}
+		for a := uint64(0); a < 1<<16; a++ {
+			spread[a] = refZ(a, 0)
+		}
+		checkOne(f.Case.X, f.Case.Y)
+		fmt.Printf("replay of %s: %d problem(s)\n", rp, run.Violations())
+		run.Exit()
+	}
 	for a := uint64(0); a < 1<<16; a++ {
 		spread[a] = refZ(a, 0)
 	}
